@@ -161,7 +161,7 @@ func composeYAML(c cmpCfg, rng *rand.Rand) string {
 		}
 		toFail := c.TOFail[s-1] && (c.Cls[s-1] == "FAIL" || c.Cls[s-1] == "FAILA")
 		if toFail {
-			b.WriteString("    timeout: 1s\n")
+			b.WriteString("    timeout: 4s\n")
 		}
 		if c.HB[s-1] != "none" {
 			fmt.Fprintf(&b, "    before: [\"%s\"]\n", hook(c.HB[s-1], fmt.Sprintf("s%d-tb", s)))
